@@ -145,7 +145,7 @@ def run_a2(case, acc, order):
             opi = -1
             spike_reqs = []
             for k in (0, 1, 2, 3):
-                spike_reqs += list(itertools.permutations(range(ns), k))
+                spike_reqs += list(itertools.permutations(case.get('query_spikes') or range(ns), k))
             chan_reqs = []
             for k in (1, 2, 3):
                 chan_reqs += list(itertools.permutations(list(range(nc)) + [nc + 3], k))
@@ -396,6 +396,14 @@ def explore(ctx):
                             'feat_dtype': 'float64' if (k // 2) % 2 else 'float32'}
                     k += 1
                     cases.append({'kind': 'a2', 'full': ctx.thorough, 'spec': spec})
+    # a recording with more than 100 000 spikes whose stores hold a few spikes, listed unsorted
+    big = 100010
+    stored = [big - 1, 4, big - 7, 2, 50000]
+    cases.append({'kind': 'a2', 'full': True, 'query_spikes': stored + [3],
+                  'spec': {'features': 'sparse_rows_list', 'tfeatures': 'sparse_rows_list',
+                           'feat_rows': stored, 'tfeat_rows': stored[::-1], 'raw': False,
+                           'id_dtype': 'int32', 'fill': ctx.seed, 'n_spikes': big, 'n_templates': 3,
+                           'spike_clusters': 'same', 'n_tloc': 2, 'feat_dtype': 'float32'}})
     ctx.run_cases(run_case, cases, chunk=1, sweep='A2-model-queries')
     cases = [{'kind': 'a3', 'n_sub': n, 'variant': v, 'fill': ctx.seed}
              for n in (4, 5, 6, 7) for v in range(5 if ctx.thorough else 3)]
